@@ -378,4 +378,34 @@ brk("C18", "c18-haspx-specified-value", ELS, "has_px(animation_step.value):", "h
 brk("C19", "c19-config-file-merged", "ttconv/tt.py", "      json_config_data = json.load(json_file)\n", "      json_file_data = json.load(json_file)\n    if json_config_data is None:\n      json_config_data = json_file_data\n    else:\n      json_config_data.update(json_file_data)\n", "FIN-config")
 ben("C19", "c19-benign-config-file-local", "ttconv/tt.py", "      json_config_data = json.load(json_file)\n", "      json_file_data = json.load(json_file)\n    json_config_data = json_file_data\n")
 
+# ---------------------------------------------------------------------------------------- rules added after round 8
+UT = "ttconv/utils.py"
+IU = "ttconv/imsc/utils.py"
+IA = "ttconv/imsc/attributes.py"
+brk("C04", "c04-color-prefix-match", UT, "  m = _HEX_COLOR_RE.fullmatch(attr_value)", "  m = _HEX_COLOR_RE.match(attr_value)", "REGEX-whole")
+brk("C04", "c04-frame-offset-unanchored", IU, '_OFFSET_FRAME_RE = re.compile(r"^(\\d+(?:\\.\\d+)?)f$")', '_OFFSET_FRAME_RE = re.compile(r"^(\\d+(?:\\.\\d+)?)f")', "REGEX-whole")
+brk("C04", "c04-clock-frames-two-digits", IU, '_CLOCK_TIME_FRAMES_RE = re.compile(r"^(\\d{2,}):(\\d\\d):(\\d\\d):(\\d{2,})$")', '_CLOCK_TIME_FRAMES_RE = re.compile(r"^(\\d{2,}):(\\d\\d):(\\d\\d):(\\d{2})$")', "FIN-regex")
+ben("C04", "c04-benign-length-re-equivalent", IU, '_LENGTH_RE = re.compile(r"^((?:\\+|\\-)?\\d*(?:\\.\\d+)?)(px|em|c|%|rh|rw)$")', '_LENGTH_RE = re.compile(r"^([+-]?[0-9]*(?:\\.[0-9]+)?)(px|em|rh|rw|c|%)$")')
+brk("C11", "c11-int-re-no-zero", "ttconv/vtt/reader.py", '_VTT_INT_RE = re.compile(r"(-?\\d{1,20})")', '_VTT_INT_RE = re.compile(r"(-?[1-9]\\d{0,19})")', "FIN-regex")
+brk("C13", "c13-lwsp-unicode-spaces", ISD, 'trimmed_text = re.sub(r"[\\t\\r\\n ]+", " ", node.get_text())', 'trimmed_text = re.sub(r"\\s+", " ", node.get_text())', "FIN-regex")
+ben("C13", "c13-benign-lwsp-class-order", ISD, 'trimmed_text = re.sub(r"[\\t\\r\\n ]+", " ", node.get_text())', 'trimmed_text = re.sub(r"[ \\n\\r\\t]+", " ", node.get_text())')
+brk("C12", "c12-df-pattern-bare-dot", "ttconv/time_code.py", "'(:|;|\\\\.|,)'.join", "'(:|;|.|,)'.join", "LINT-m")
+brk("C09", "c09-tnb-zero-divides", "ttconv/stl/datafile.py", "    if self.tti_count < 1:\n      LOGGER.error(\"Invalid TNB field value: %s\", self.gsi.TNB)\n      self.tti_count = sys.maxsize\n", "", "DIV-parsed")
+ben("C09", "c09-benign-tnb-guard-form", "ttconv/stl/datafile.py", "    if self.tti_count < 1:\n      LOGGER.error(\"Invalid TNB field value: %s\", self.gsi.TNB)", "    if self.tti_count <= 0:\n      LOGGER.error(\"Invalid TNB field value: %s\", self.gsi.TNB)")
+brk("C09", "c09-line-count-last-block", "ttconv/stl/datafile.py", "line_count = tf.line_count(self.tti_tf, is_double_height_characters)", "line_count = tf.line_count(tti.TF, is_double_height_characters)", "ACC-raw")
+brk("C07", "c07-default-filter-break", "ttconv/filters/isd/default_style_properties.py", "        if parent_value is not None and parent_value is not value:\n          continue", "        if parent_value is not None and parent_value is not value:\n          break", "LOOP-break")
+brk("C19", "c19-unknown-filter-break", "ttconv/tt.py", '      LOGGER.error("Unknown filter: %s", filter_name)\n      continue', '      LOGGER.error("Unknown filter: %s", filter_name)\n      break', "LOOP-break")
+brk("C05", "c05-position-haspx-and", ISP, "      return attrib_value.h_offset.units == styles.LengthType.Units.px or \\\n", "      return attrib_value.h_offset.units == styles.LengthType.Units.px and \\\n", "FIN-haspx")
+brk("C05", "c05-from-seconds-fractional", "ttconv/time_code.py", "    return SmpteTimeCode.from_frames(int(frames), frame_rate)", "    return SmpteTimeCode.from_frames(frames, frame_rate)", "FIN-wholeframes")
+brk("C05", "c05-format-number-strips-zeros", IU, 's = f"{value:.12f}".rstrip("0").rstrip(".")', 's = f"{value:.12f}".rstrip("0.")', "FMT-number")
+brk("C05", "c05-frames-syntax-noninteger-rate", "ttconv/imsc/writer.py", "        if config.time_format is TimeExpressionSyntaxEnum.clock_time_with_frames and config.fps.denominator != 1:\n          raise ValueError(\"Time expressions cannot be HH:MM:SS:FF if the `frame_rate` parameter is not an integer\")\n", "", "FMT-time")
+brk("C04", "c04-chained-refs-cleared-late", ELS, "      while len(style_element.style_refs) > 0:\n\n        style_ref = style_element.style_refs.pop()\n", "      for style_ref in reversed(list(style_element.style_refs)):\n", "TERM-refs")
+brk("C03", "c03-initial-override-not-computed", ISD, "          initial_value = doc.get_initial_value(initial_style)\n", "          isd_element.set_style(initial_style, doc.get_initial_value(initial_style))\n          continue\n", "PAIR-compute")
+brk("C06", "c06-nested-div-overwrites", "ttconv/filters/isd/merge_paragraphs.py", "        paragraphs = paragraphs + self._get_paragraphs(child)", "        paragraphs = self._get_paragraphs(child)", "ORD-docorder")
+ben("C06", "c06-benign-get-paragraphs-stack", "ttconv/filters/isd/merge_paragraphs.py", "    for child in element:\n      if isinstance(child, Div):\n        paragraphs = paragraphs + self._get_paragraphs(child)\n      elif isinstance(child, P):\n        paragraphs.append(child)\n",
+    "    pending = list(reversed(list(element)))\n    while pending:\n      child = pending.pop()\n      if isinstance(child, Div):\n        pending.extend(reversed(list(child)))\n      elif isinstance(child, P):\n        paragraphs.append(child)\n")
+brk("C16", "c16-replace-regions-stops-at-p", LCD, "  for child in element:\n    _replace_regions(child, region_aliases)", "  if isinstance(element, P):\n    return\n  for child in element:\n    _replace_regions(child, region_aliases)", "ORD-repoint")
+brk("C15", "c15-detach-root-region-only", MODEL, "    for e in self.dfs_iterator():\n      if doc is None:\n        e._region = None\n      e._doc = doc", "    if doc is None:\n      self._region = None\n    for e in self.dfs_iterator():\n      e._doc = doc", "PAIR-detach")
+brk("C17", "c17-find-code-dispatch-misses-attr", "ttconv/scc/word.py", "      return SccControlCode.find(self.value) or \\\n        SccAttributeCode.find(self.value) or \\\n", "      return SccControlCode.find(self.value) or \\\n        (SccAttributeCode.find(self.value) if self.byte_1 & 0x07 == 0 else None) or \\\n", "CLS")
+
 VARIANTS = V
